@@ -249,12 +249,65 @@ func (g *Gen) exprList(d, max int) string {
 	return strings.Join(xs, ", ")
 }
 
+// specialNames: quoted names with characters that are harmless in SQL but meaningful to printf-style formatting,
+// to word splitting or to backtick/escape handling in a printer
+var specialNames = []string{"`pct%`", "`%d`", "`a%sb`", "`100%`", "`x y`", "`a.b`", "`тест`", "`a$b`", "`a\\b`", "\"q%v\"", "`%`", "`a(b)`", "`(children 1)`"}
+
 func (g *Gen) selectItem(d int) string {
 	e := g.expr(d)
 	if g.r.Chance(1, 4) {
-		e += " AS " + g.ident()
+		if g.r.Chance(1, 6) {
+			e += " AS " + pick(g.r, specialNames)
+		} else {
+			e += " AS " + g.ident()
+		}
 	}
 	return e
+}
+
+// aliasedShapes: every expression kind that has its own alias-printing code path, with a plain and a special alias
+func (g *Gen) aliasedShapes() string {
+	shapes := []string{"arr[1]", "t.1", "x IS NULL", "x IS NOT NULL", "EXISTS (SELECT 1)", "EXTRACT(YEAR FROM d)", "CAST(x AS UInt8)", "x::UInt8", "(SELECT 1)", "[1, 2]", "(1, 2)", "-x", "NOT x",
+		"x BETWEEN 1 AND 2", "x IN (1, 2)", "x LIKE 'a'", "CASE WHEN x THEN 1 END", "if(x, 1, 2)", "f(x)", "x -> x", "INTERVAL 1 DAY", "a ? b : c", "count(*)", "*", "t.*", "COLUMNS('a')", "1", "'s'", "NULL",
+		"x + 1", "a AND b", "a || b", "TRIM(BOTH ' ' FROM s)", "SUBSTRING(s FROM 1 FOR 2)", "POSITION('a' IN s)", "DATE '2020-01-01'", "{p:UInt8}", "sum(x) OVER (PARTITION BY y)", "quantile(0.5)(x)", "m['k']", "x.y.z"}
+	var items []string
+	n := 1 + g.r.Intn(4)
+	for i := 0; i < n; i++ {
+		sh := pick(g.r, shapes)
+		if sh == "*" || sh == "t.*" {
+			items = append(items, sh)
+			continue
+		}
+		if g.r.Chance(1, 2) {
+			items = append(items, sh+" AS "+pick(g.r, specialNames))
+		} else {
+			items = append(items, sh+" AS "+g.ident())
+		}
+	}
+	return "SELECT " + strings.Join(items, ", ") + " FROM t"
+}
+
+// createView: plain / materialized / window / live views with every storage clause that a view may carry
+func (g *Gen) createView() string {
+	sel := g.selectQuery(1, true)
+	opt := func(p int, s string) string {
+		if g.r.Chance(1, p) {
+			return s
+		}
+		return ""
+	}
+	switch g.r.Intn(4) {
+	case 0:
+		return "CREATE " + opt(3, "OR REPLACE ") + "VIEW " + opt(3, "IF NOT EXISTS ") + "v" + opt(4, " (a UInt8, b String)") + " AS " + sel
+	case 1:
+		return "CREATE MATERIALIZED VIEW mv" + opt(3, " TO db.dst") + " AS " + sel
+	case 2:
+		return "CREATE MATERIALIZED VIEW mv" + opt(3, " (a UInt8)") + " ENGINE = " + pick(g.r, []string{"MergeTree", "MergeTree()", "ReplacingMergeTree(v)", "SummingMergeTree"}) +
+			opt(2, " PARTITION BY toYYYYMM(ts)") + " ORDER BY " + pick(g.r, []string{"a", "(a, b)", "tuple()"}) + opt(3, " PRIMARY KEY a") + opt(3, " SAMPLE BY a") +
+			opt(2, " TTL ts + INTERVAL 1 DAY") + opt(3, " TTL ts + INTERVAL 1 MONTH DELETE, ts + INTERVAL 1 YEAR TO DISK 'x'") + opt(3, " SETTINGS index_granularity = 1") + opt(3, " POPULATE") + " AS " + sel
+	default:
+		return "CREATE TABLE t" + " (a UInt8, ts DateTime)" + " ENGINE = MergeTree ORDER BY a" + opt(2, " TTL ts + INTERVAL 1 DAY") + opt(3, " SETTINGS a = 1") + opt(2, " AS "+sel)
+	}
 }
 
 func (g *Gen) tableExpr(d int) string {
@@ -584,7 +637,12 @@ func (g *Gen) statement(d int) string {
 	case 5, 6, 7:
 		return pick(g.r, utilityStmts)
 	case 8:
+		if g.r.Chance(1, 2) {
+			return g.createView()
+		}
 		return "CREATE VIEW v AS " + g.selectUnion(d, true)
+	case 12:
+		return g.aliasedShapes()
 	case 9:
 		return "EXPLAIN " + pick(g.r, []string{"", "AST ", "SYNTAX ", "PLAN "}) + g.selectQuery(d, true)
 	case 10, 11:
